@@ -92,7 +92,7 @@ fn build_tree(pred: &[Option<usize>], how: usize) -> PredecessorTree {
         1 => {
             let mut t = PredecessorTree::new(n);
             for (v, &p) in pred.iter().enumerate() {
-                t[v] = p;
+                crate::ctx::via_graaf(|| t[v] = p);
             }
             t
         }
@@ -144,6 +144,40 @@ fn reentrant(o: &mut CaseOut, pred: &[Option<usize>]) {
     }
 }
 
+type Job = (PredecessorTree, Vec<usize>, Vec<usize>);
+type Answers = Vec<Result<Option<Vec<usize>>, String>>;
+
+/// One long-lived helper thread per process answers all plain `search` calls
+/// (spawning a thread per vector costs more than the searches). `None` = no
+/// answer within 30 s; the helper is then lost and the shard is stopped.
+fn plain_searches(tree: &PredecessorTree, starts: &[usize], targets: &[usize]) -> Option<Answers> {
+    use std::sync::mpsc::{channel, Receiver, Sender};
+    use std::sync::{Mutex, OnceLock};
+    static WORKER: OnceLock<Mutex<(Sender<Job>, Receiver<Answers>)>> = OnceLock::new();
+    let w = WORKER.get_or_init(|| {
+        let (jtx, jrx) = channel::<Job>();
+        let (atx, arx) = channel::<Answers>();
+        let _ = std::thread::spawn(move || {
+            crate::ctx::install_panic_hook();
+            while let Ok((t, st, tg)) = jrx.recv() {
+                let mut out = Vec::with_capacity(st.len() * tg.len());
+                for &s in &st {
+                    for &x in &tg {
+                        out.push(crate::ctx::catch(|| t.search(s, x)).map_err(|p| format!("{} at {}", p.msg, p.loc)));
+                    }
+                }
+                if atx.send(out).is_err() {
+                    break;
+                }
+            }
+        });
+        Mutex::new((jtx, arx))
+    });
+    let g = w.lock().unwrap_or_else(|e| e.into_inner());
+    g.0.send((tree.clone(), starts.to_vec(), targets.to_vec())).ok()?;
+    g.1.recv_timeout(std::time::Duration::from_secs(30)).ok()
+}
+
 fn check_vector(o: &mut CaseOut, pred: &[Option<usize>], starts: &[usize], targets: &[usize]) {
     let n = pred.len();
     let how = pred.iter().map(|p| p.map_or(1, |v| v + 2)).sum::<usize>();
@@ -151,7 +185,7 @@ fn check_vector(o: &mut CaseOut, pred: &[Option<usize>], starts: &[usize], targe
     o.check(tree.pred == pred, "tree-construction", || format!("{:?} vs {pred:?}", tree.pred));
     if how % 4 == 1 {
         // the other public views of the vector: Index, IntoIterator (owned and borrowed)
-        let by_index: Vec<Option<usize>> = (0..n).map(|v| tree[v]).collect();
+        let by_index: Vec<Option<usize>> = crate::ctx::via_graaf(|| (0..n).map(|v| tree[v]).collect());
         let owned: Vec<Option<usize>> = tree.clone().into_iter().collect();
         o.check(by_index == pred && owned == pred, "tree-views-disagree", || format!("index {by_index:?} into_iter {owned:?} vs {pred:?}"));
     }
@@ -162,12 +196,31 @@ fn check_vector(o: &mut CaseOut, pred: &[Option<usize>], starts: &[usize], targe
             return;
         }
     }
+    // `search` takes no predicate of ours, so its steps cannot be counted: all
+    // its calls for this vector run on a helper thread and must come back within
+    // 30 s of wall-clock (a vector of at most 64 entries takes microseconds).
+    let plain = match plain_searches(&tree, starts, targets) {
+        Some(v) => v,
+        None => {
+            o.check(false, "search-does-not-terminate", || format!("no answer after 30 s: pred {pred:?} starts {starts:?} targets {targets:?}"));
+            crate::ctx::request_stop();
+            return;
+        }
+    };
+    let mut plain = plain.into_iter();
     for &s in starts {
         for &t in targets {
+            let a = plain.next().expect("harness: one answer per pair");
             if !check_one(o, &tree, pred, s, &format!("v == {t}"), &|v, _| v == t) {
                 return;
             }
-            let a = tree.search(s, t);
+            let a = match a {
+                Ok(a) => a,
+                Err(why) => {
+                    o.check(false, "search-panicked", || format!("{why}: pred {pred:?} s {s} t {t}"));
+                    return;
+                }
+            };
             let b = tree.search_by(s, |&v, _| v == t);
             o.check(a == b, "search-differs-from-search_by", || format!("pred {pred:?} s {s} t {t}: {a:?} vs {b:?}"));
         }
